@@ -287,6 +287,20 @@ def run(ctx):
         if f[:8] != b'sxg1-b1\0':
             ffurl = f[:8] + bytes([255, 255]) + f[10:]
             ops.append(f'c10.sxg {hexs(ffurl)}')
+    # header fields that declare sizes must not steer allocation either (Content-Length, Content-Range, ...)
+    sized = []
+    for v in ('b1', 'b2', 'b3'):
+        for cl in (b'268435456', b'9223372036854775807', b'18446744073709551615', b'-1', b'abc', b'0', b'7', b'4294967296', b'1e12'):
+            rs_ = [(b'Content-Type', [b'text/html']), (b'Content-Length', [cl]), (b'Content-Range', [b'bytes 0-' + cl + b'/' + cl])]
+            sized.append(ex(v, b'https://example.com/', b'GET', [(b'Content-Length', [cl])] if v != 'b3' else [], 200, rs_, b'sig', b'payload'))
+    fs = ctx.go([f'sxg.write {exs(e)}' for e in sized])
+    for r in fs:
+        if r and r.startswith('ok '):
+            ops.append(f'c10.sxg {r.split(" ")[1]}')
+    bsz = ctx.go([f'bundle.write {bundle(v, b"https://example.com/", None, None, [exch(b"https://example.com/", 200, [(b"Content-Length", [cl])], b"body")])}' for v in ('b1', 'b2') for cl in (b'268435456', b'9223372036854775807', b'-1')])
+    for r in bsz:
+        if r and r.startswith('ok '):
+            ops.append(f'c10.bundle {r.split(" ")[1]}')
     for magic in (b'sxg1-b1\0', b'sxg1-b2\0', b'sxg1-b3\0', b'sxg1\0\0\0\0'):
         for _ in range(10 * scale):
             ops.append(f'c10.sxg {hexs(magic + rbytes(rng, rng.randrange(0, 40)))}')
